@@ -218,17 +218,17 @@ Fixpoint skip_records (fuel : nat) (m : bytes) (pos lim count : N) : outcome N :
       else do pos' <- record_skip m pos lim; skip_records fuel' m pos' lim (count - 1)
   end.
 
-Record rhead := RHead { rh_owner : pname; rh_type : N; rh_class : N; rh_rdlen : N; rh_data : N; rh_next : N }.
+Record rhead := RHead { rh_owner : pname; rh_type : N; rh_class : N; rh_ttl : N; rh_rdlen : N; rh_data : N; rh_next : N }.
 
 (* ParsedRecord::parse = RecordHeader::parse_ref + advance(rdlen) *)
 Definition record_parse (m : bytes) (pos lim : N) : outcome rhead :=
   do p <- parse_ref m pos lim;
   do t <- rd_u16 m (pn_end p) lim;
   do c <- rd_u16 m (snd t) lim;
-  do p3 <- advance (snd c) lim 4;
-  do l <- rd_u16 m p3 lim;
+  do tl <- rd_octets m (snd c) lim 4;
+  do l <- rd_u16 m (snd tl) lim;
   do nx <- advance (snd l) lim (fst l);
-  Ok (RHead p (fst t) (fst c) (fst l) (snd l) nx).
+  Ok (RHead p (fst t) (fst c) (of_be (fst tl) 0) (fst l) (snd l) nx).
 
 Record mtsig := MTsig {
   mt_start : N;
@@ -267,7 +267,10 @@ Fixpoint find_tsig (fuel : nat) (m : bytes) (pos lim count : N) : outcome mtsig 
         do h <- to_err TE_PARSE (record_parse m pos lim);
         if rh_type h =? RTYPE_TSIG then
           do t <- to_err TE_INVALID (tsig_parse m h pos);
-          if 0 <? count - 1 then Err TE_POSITION else Ok t
+          (* T1 tsig_class_ttl_checked: CLASS must be ANY and TTL 0 *)
+          if tsig_class_ttl_checked && (negb (rh_class h =? CLASS_ANY) || negb (rh_ttl h =? 0))
+          then Err TE_INVALID
+          else if 0 <? count - 1 then Err TE_POSITION else Ok t
         else find_tsig fuel' m (rh_next h) lim (count - 1)
   end.
 
